@@ -118,6 +118,15 @@ func watcherPart(r *ev.Run, version string) {
 			if err != nil {
 				ev.Harness("watcher part: %v", err)
 			}
+			if staged {
+				// the files Refinery started on were deployed long ago (what decides a reload is content, never a time stamp)
+				long := time.Date(2020, 1, 1, 0, 0, 0, 0, time.UTC)
+				for _, p := range []string{s.cfgPath, s.rulesPath} {
+					if err := os.Chtimes(p, long, long); err != nil {
+						ev.Harness("%v", err)
+					}
+				}
+			}
 			stop, err := cwbridge.VerifStartedWatcher(s.cfg, &logger.NullLogger{})
 			if err != nil {
 				ev.Harness("watcher part: ConfigWatcher.Start: %v", err)
